@@ -72,3 +72,12 @@ def _width_of(shape):
     if key not in _widths:
         _widths[key] = Shape.cast(shape).width
     return _widths[key]
+
+
+class ReboundPort(wiring.Component):
+    def __init__(self):
+        super().__init__({"bus": In(1)})
+        self.bus = flipped(self.bus)            # the port attribute replaced after construction
+
+    def elaborate(self, platform):
+        return Module()
